@@ -29,6 +29,7 @@ type ackUnit struct {
 	WorkType  string
 	Input     string
 	FinalSeen *unitStatus // final state the submitter had seen before the crash
+	ReleaseRequested bool // the submitter has asked for the unit's release (answered or not): it may be gone after a crash
 }
 
 type c04Model struct {
@@ -96,6 +97,9 @@ func runHistory(name string, d *daemon, m *c04Model) {
 		u2 := sub("cat", "to be released\n")
 		waitFinal(u2, 8*time.Second)
 		if u2 != nil && d.alive() {
+			m.mu.Lock()
+			u2.ReleaseRequested = true
+			m.mu.Unlock()
 			r, _ := d.ask("work release "+u2.ID, 5*time.Second)
 			if strings.Contains(r, "released") {
 				m.mu.Lock()
@@ -224,6 +228,10 @@ func execC04(w *W, raw json.RawMessage) CaseOut {
 	m.mu.Unlock()
 	for _, u := range units {
 		st, ok := list[u.ID]
+		if !ok && err == nil && u.ReleaseRequested {
+			out.count("release_took_effect_before_the_crash", 1)
+			continue
+		}
 		if !ok && err == nil {
 			out.violate("crash:acknowledged-unit-missing:at="+at, "%s: unit %s (%s) was acknowledged but is not listed after the restart: %s", ctx, u.ID, u.WorkType, trunc(rawList, 200))
 			continue
